@@ -36,7 +36,7 @@ def gen_call_lattice(rng):
 
 def plan(tier, seed, scale=1.0):
     nb = 32
-    per = max(2, int((4 if tier == "quick" else 40) * scale))
+    per = max(2, int((4 if tier == "quick" else 24) * scale))
     return [{"batch": b, "n": per, "seed": seed, "tier": tier} for b in range(nb)]
 
 
@@ -181,7 +181,7 @@ def run_batch(spec):
         src, _ = T.render(c["prog"], c["version"])
         progs.append((c, src))
     srcs = [s_ for _c, s_ in progs]
-    seeds = [1, 2, 3] if spec["tier"] == "quick" else list(range(1, 24))
+    seeds = [1, 2, 3] if spec["tier"] == "quick" else list(range(1, 17))
     try:
         # baselines: each program alone would cost one process each; instead the batch is analysed in one fresh
         # process per hash seed, in forward order for seed 0 (baseline) and alternating orders for the others, so
@@ -219,7 +219,7 @@ def run_batch(spec):
         for kind, what in viols:
             allv.append({"kind": kind, "key": kind, "what": what, "src": src, "prog": c["prog"], "version": c["version"], "mechanism": None})
         if len(out["samples"]) < 1 and len(src) < 600:
-            out["samples"].append({"src": src, "perturbations": ["PYTHONHASHSEED sweep (quick 0..3, thorough 0..31)", "callee orders", "history k=1,3", "detector orders, each detector run twice"]})
+            out["samples"].append({"src": src, "perturbations": ["PYTHONHASHSEED sweep (quick 0..3, thorough 0..16)", "callee orders", "history k=1,3", "detector orders, each detector run twice"]})
     seen = {}
     for v in allv:
         seen.setdefault((v["kind"], common.h(v["src"])), v)
